@@ -1128,6 +1128,8 @@ def library_module(dotted):
     elif dotted == "os":
         import os
         m = LibModule("os", {"path": LibModule("os.path", {"join": ModelFn("os.path.join", lambda it, *a: os.path.join(*a))})})
+    elif dotted == "pandas":
+        m = LibModule("pandas", _pandas_table())
     elif dotted == "re":
         import re
         m = LibModule("re", {"search": ModelFn("re.search", lambda it, p, s: I.NativeValue.wrap(re.search(p, s)))})
@@ -1144,3 +1146,103 @@ def _ceil(it, x):
     if z3.is_int(zx):
         return zx
     return sym.concretize(-z3.ToInt(-zx))
+
+
+# ------------------------------------------------------------------------------------------------
+# pandas: the handful of DataFrame operations frames.py uses to tabulate results (A-pandas: they do what the pandas
+# documentation says; the model is conformance-tested against the real pandas through the native runs)
+
+class SeriesModel:
+    def __init__(self, values):
+        self.values = list(values)
+
+    def fvc_getattr(self, it, name):
+        I = _I()
+        if name == "isin":
+            return ModelFn("Series.isin", lambda it_, vals: SeriesModel([it.truth(it.contains(_lst(it, vals), v)) for v in self.values]))
+        if name == "values":
+            return NDArr(self.values, (len(self.values),))
+        if name == "tolist":
+            return ModelFn("Series.tolist", lambda it_: list(self.values))
+        if name == "mean":
+            return ModelFn("Series.mean", lambda it_: np_mean(it, self.values))
+        if name == "sum":
+            return ModelFn("Series.sum", lambda it_: it.sum_list(self.values))
+        if name == "round":
+            return ModelFn("Series.round", lambda it_, k=0: SeriesModel([sym.py_round(v, k) for v in self.values]))
+        raise SymError("Series." + name)
+
+    def fvc_invert(self, it):
+        return SeriesModel([sym.b_not(v) for v in self.values])
+
+    def fvc_iter(self, it):
+        return iter(list(self.values))
+
+    def fvc_len(self, it):
+        return len(self.values)
+
+
+class DataFrameModel:
+    def __init__(self, columns=None):
+        self.columns = dict(columns or {})          # name -> list (insertion ordered)
+
+    def nrows(self):
+        for v in self.columns.values():
+            return len(v)
+        return 0
+
+    def fvc_setitem(self, it, key, value):
+        I = _I()
+        vals = list(value.data) if isinstance(value, NDArr) else (list(value.values) if isinstance(value, SeriesModel) else _lst(it, value))
+        if self.columns and len(vals) != self.nrows():
+            raise I.IRaise(ValueError(f"Length of values ({len(vals)}) does not match length of index ({self.nrows()})"))
+        self.columns[key] = vals
+
+    def fvc_getitem(self, it, key):
+        I = _I()
+        if isinstance(key, SeriesModel):
+            mask = [it.truth(m) for m in key.values]
+            return DataFrameModel({c: [v for v, m in zip(vals, mask) if m] for c, vals in self.columns.items()})
+        if key not in self.columns:
+            raise I.IRaise(KeyError(key))
+        return SeriesModel(self.columns[key])
+
+    def fvc_getattr(self, it, name):
+        I = _I()
+        if name == "rename":
+            def rename(it_, columns=None):
+                mp = {k: v for k, v in columns.items_}
+                return DataFrameModel({mp.get(c, c): vals for c, vals in self.columns.items()})
+            return ModelFn("DataFrame.rename", rename)
+        if name == "loc":
+            return self
+        if name == "iterrows":
+            return ModelFn("DataFrame.iterrows", lambda it_: [(i, I.IDict([(c, vals[i]) for c, vals in self.columns.items()])) for i in range(self.nrows())])
+        if name in self.columns:
+            return SeriesModel(self.columns[name])
+        raise SymError("DataFrame." + name)
+
+    def fvc_len(self, it):
+        return self.nrows()
+
+
+def _pandas_table():
+    def from_dict(it, data, **kw):
+        rows = [_lst(it, r) for r in _lst(it, data)]
+        ncol = len(rows[0]) if rows else 0
+        return DataFrameModel({j: [r[j] for r in rows] for j in range(ncol)})
+
+    class DFClass:
+        def fvc_call(self, it, args, kwargs):
+            I = _I()
+            if not args and not kwargs:
+                return DataFrameModel()
+            if args and isinstance(args[0], I.IDict):
+                return DataFrameModel({k: (list(v.data) if isinstance(v, NDArr) else _lst(it, v)) for k, v in args[0].items_})
+            raise SymError("pandas.DataFrame(...) form")
+
+        def fvc_getattr(self, it, name):
+            if name == "from_dict":
+                return ModelFn("DataFrame.from_dict", from_dict)
+            raise SymError("pandas.DataFrame." + name)
+    return {"DataFrame": DFClass()}
